@@ -7,7 +7,7 @@
            fixID (to_parsed, is_notification); null params are read as absent by the member parser
            itself: the denotation is [canon (norm m)]. *)
 From Coq Require Import List NArith ZArith Bool Arith Lia.
-From JV Require Import Bytes Sort Json JsonProofs JsonPrint JsonTree Msg Wire WireProofs WireSpecs.
+From JV Require Import Bytes Sort Json JsonProofs JsonPrint JsonTree JsonEq Msg Wire WireProofs WireSpecs.
 Import ListNotations.
 Local Open Scope N_scope.
 
@@ -766,3 +766,48 @@ Example member_correspondence_nonvacuous :
   parse [32; 91; 49; 44; 32; 123; 125; 32; 93; 10] = Some (JArr [JNum [49]; JObj []]) /\
   split_msgs [32; 91; 49; 44; 32; 123; 125; 32; 93; 10] = Some (true, [[49]; [123; 125]]).
 Proof. split; vm_compute; reflexivity. Qed.
+
+(* ------------------------------------------------------------------------- *)
+(* Part E: JSON-equality.  json.Marshal(RawMessage) = compaction keeps the abstract value
+   (JsonEq.compact_parse), so the error data that arrive denote the value that was sent; params and
+   results are already what json.Marshal returned and arrive byte for byte (parse_back'). *)
+
+Theorem error_data_json_equal : forall m b e, msg_rt' m -> enc_msg m = Some b ->
+  j_error m = Some e -> j_method m = [] -> j_result m = [] ->
+  exists e', j_error (parse_member b) = Some e' /\ we_code e' = we_code e /\
+             (valid_utf8 (we_msg e) = true -> we_msg e' = we_msg e) /\
+             (we_data e = [] -> we_data e' = []) /\
+             (we_data e <> [] -> we_data e' <> [] /\ parse (we_data e') = parse (we_data e) /\ parse (we_data e) <> None).
+Proof.
+  intros m b e Hrt Henc He Hm Hr. destruct (parse_back' m b Hrt Henc) as (A & _).
+  assert (Hc : canon (norm m) = canon m) by (apply canon_norm_other; rewrite Hm; reflexivity).
+  rewrite Hc in A. rewrite A. unfold canon. rewrite Hm, Hr, He. cbn [beq negb j_error].
+  eexists. split; [reflexivity|]. cbn [we_code we_msg we_data]. split; [reflexivity|]. split.
+  { intros Hv. rewrite Hv. reflexivity. }
+  split.
+  { intros Hd. rewrite Hd. destruct (compact []); reflexivity. }
+  intros Hd. destruct (rt'_error _ _ Hrt e He Hm Hr) as [_ [Hd0|(q & Hq & Ht)]]; [contradiction|].
+  rewrite Hq. destruct (beq_spec (we_data e) []) as [E|_]; [contradiction|].
+  split.
+  { intros ->. vm_compute in Ht. discriminate Ht. }
+  pose proof (compact_parse _ _ Hq) as Hp. split; [exact Hp|]. rewrite <- Hp.
+  unfold parse. destruct (tight_PV _ _ Ht) as [c Hc']. rewrite (parse_doc_PV _ _ (PV_depth _ 0 _ _ _ Hc' (N.le_0_l _))). discriminate.
+Qed.
+
+Definition ws_data_rsp : jmsg :=
+  {| j_id := [49]; j_method := []; j_params := []; j_result := []; j_err := None;
+     j_error := Some {| we_code := 7%Z; we_msg := [109]; we_data := [32; 91; 34; 60; 34; 44; 32; 49; 93] |} |}.
+
+Example error_data_json_equal_nonvacuous :
+  msg_rt' ws_data_rsp /\
+  exists b e', enc_msg ws_data_rsp = Some b /\ j_error (parse_member b) = Some e' /\
+               we_data e' = [91; 34; 92; 117; 48; 48; 51; 99; 34; 44; 49; 93] /\
+               parse (we_data e') = Some (JArr [JStr [60]; JNum [49]]).
+Proof.
+  split.
+  - constructor; try (left; reflexivity); try reflexivity.
+    + right; right; reflexivity.
+    + intros e He _ _. injection He as <-. split; [unfold int32_ok; cbn; split; discriminate|].
+      right. eexists. split; vm_compute; reflexivity.
+  - eexists. eexists. split; [vm_compute; reflexivity|]. split; [vm_compute; reflexivity|]. split; vm_compute; reflexivity.
+Qed.
